@@ -315,7 +315,7 @@ func (e *ParallelExplorer) result(it stackItem, raw []byte, crash string, hang b
 	if e.Visit != nil {
 		e.Visit(job, &res, crash, hang)
 	}
-	if raw == nil || budget <= 0 {
+	if raw == nil {
 		return
 	}
 	x := &res.Trace
@@ -325,6 +325,9 @@ func (e *ParallelExplorer) result(it stackItem, raw []byte, crash string, hang b
 		p := x.Points[i]
 		for alt := 1; alt < p.N; alt++ {
 			c := p.cost(alt)
+			if c < 0 {
+				c = 0 // free choice (alphabet member), not a deviation
+			}
 			if c > budget {
 				continue
 			}
